@@ -72,13 +72,31 @@ def used_blocks(st, g):
         uC = uD = False
     return uA, uB, uC, uD
 
-def twin_c03(seed, n):
+def twin_c03(seed, n, style="mixed"):
+    """style 'early': reset-heavy sessions in which one block is flagged most of the time, so that the parser
+    stays for long in states ordinary traffic leaves at once (PI unknown, no RT flag seen, nothing confirmed)"""
     g = Gen(seed, "c03")
     r = g.r
     a = g.prologue(all_cbs=True) + g.settings_block()
+    bad_block = r.randrange(4)
     while len(a) < n:
         x = r.random()
-        if x < 0.9: a.append(g.group(zero=r.choice([0.3, 0.5, 0.7])))
+        if style == "early" and x < 0.06:
+            a += (["clear"] if r.random() < 0.6 else ["new"] + ALL_CBS + g.settings_block())
+            if r.random() < 0.6: a.append("x 1")
+            bad_block = r.randrange(4)
+            continue
+        if x < 0.9:
+            line = g.group(zero=r.choice([0.3, 0.5, 0.7]), gtype=(r.choice([0, 1, 1, 2, 2, 4, 10]) if style == "early" and r.random() < 0.7 else None))
+            if style == "early":
+                v = line.split()
+                for blk in range(4):
+                    if blk == bad_block:
+                        v[5 + blk] = str(r.choice([1, 1, 2, 3, 200])) if r.random() < 0.8 else "0"
+                    elif r.random() < 0.85:
+                        v[5 + blk] = "0"
+                line = " ".join(v)
+            a.append(line)
         elif x < 0.94: a.append(g.setter())
         elif x < 0.96: a.append("clear")
         elif x < 0.97: a += ["new"] + ALL_CBS + g.settings_block()
@@ -108,6 +126,8 @@ def twin_c13(seed, n_pre, n_post):
     g = Gen(seed, "c13")
     r = g.r
     pre = g.prologue(all_cbs=r.random() < 0.8) + g.settings_block()
+    # thresholds above 0 and the extended check make hidden state observable later
+    if r.random() < 0.7: pre += ["c 1 0 %d" % r.choice([1, 2]), "c 0 0 %d" % r.choice([1, 2]), "c 2 0 %d" % r.choice([1, 2])]
     while len(pre) < n_pre:
         x = r.random()
         if x < 0.9: pre.append(g.group(zero=0.85))
@@ -115,10 +135,27 @@ def twin_c13(seed, n_pre, n_post):
         elif x < 0.98: pre.append(g.observer())
         else: pre.append("clear")
     # make sure hidden state is left behind: pending candidates, AF candidates, RT flag, text cells
-    pre += ["x 1", P(0xBEEF, 0x0000 | (7 << 5), 0x3C3D, 0x4142), P(0x1111, 0x2010, 0x4142, 0x4344), P(0x1111, 0x1000, 0x00E3, 0), "x %d" % r.randrange(2)]
+    last_flag = r.randrange(2)
+    pre += ["x 1", P(0xBEEF, 0x0000 | (7 << 5), 0x3C3D, 0x4142), P(0x1111, 0x2000 | (last_flag << 4), 0x4142, 0x4344),
+            P(0x1111, 0x1000, 0x00E3, 0), "x %d" % r.randrange(2)]
+    if r.random() < 0.5:
+        # a session without the extended check that repeats values (candidate stage written while the check is off)
+        pre += ["x 0", P(0xBEEF, 0x0000 | (7 << 5) | 0x18, 0x3C3D, 0x4142), P(0xBEEF, 0x0000 | (7 << 5) | 0x18, 0x3C3D, 0x4142),
+                P(0xBEEF, 0x1000, 0x00E3, 0), P(0xBEEF, 0x1000, 0x00E3, 0), "x %d" % r.randrange(2)]
     tr = Tracker()
     for line in pre: tr.feed(line)
-    post = []
+    # probes: the first calls after the reset are chosen so that every kind of surviving history shows at once:
+    # single receptions of the values seen before (stale candidates), noisy RT groups of both flags (stale flag),
+    # re-deliveries with a worse level (stale text cells under progressive correction)
+    probes = []
+    if r.random() < 0.5: probes.append("x 1")
+    eb = r.choice([1, 1, 2])
+    probes += [P(0x1111, 0x2000 | ((last_flag ^ 1) << 4) | 1, 0x4B52, 0x4450, 0, eb, 0, 0),
+               P(0x1111, 0x2000 | (last_flag << 4) | 2, 0x4B52, 0x4450, 0, eb, 0, 0),
+               P(0xBEEF, 0x0000 | (7 << 5) | 0x18, 0x3C3D, 0x4142), P(0xBEEF, 0x1000, 0x00E3, 0),
+               P(0x1111, 0x2000 | (last_flag << 4), 0x6162, 0x6364, 0, 0, 1, 1), P(0xBEEF, 0x0000 | (7 << 5), 0x3C3D, 0x6162, 0, 0, 0, 1)]
+    r.shuffle(probes)
+    post = list(probes)
     g2 = Gen(seed + 7777, "c13post")
     while len(post) < n_post:
         x = r.random()
